@@ -11,6 +11,8 @@ KEYWORDS = {
     'thread_local': 'TTHREAD_LOCAL', '_Thread_local': 'TTHREAD_LOCAL', 'true': 'TTRUE', 'typedef': 'TTYPEDEF', 'typeof': 'TTYPEOF', 'typeof_unqual': 'TTYPEOF_UNQUAL',
     'union': 'TUNION', 'unsigned': 'TUNSIGNED', 'void': 'TVOID', 'volatile': 'TVOLATILE', 'while': 'TWHILE', '_Atomic': 'T_ATOMIC', '_Complex': 'T_COMPLEX',
     '_Generic': 'T_GENERIC', '_Noreturn': 'T_NORETURN', '__asm__': 'T__ASM__', '__attribute__': 'T__ATTRIBUTE__',
+    '__inline': 'TINLINE', '__inline__': 'TINLINE', '__signed': 'TSIGNED', '__signed__': 'TSIGNED', '__thread': 'TTHREAD_LOCAL', '__typeof': 'TTYPEOF', '__typeof__': 'TTYPEOF',
+    '__alignof__': 'TALIGNOF', '__asm': 'T__ASM__', '__volatile__': 'TVOLATILE',
 }
 PUNCT = [('...', 'TELLIPSIS'), ('<<=', 'TSHLASSIGN'), ('>>=', 'TSHRASSIGN'), ('->', 'TARROW'), ('++', 'TINC'), ('--', 'TDEC'), ('<<', 'TSHL'), ('>>', 'TSHR'),
          ('<=', 'TLEQ'), ('>=', 'TGEQ'), ('==', 'TEQL'), ('!=', 'TNEQ'), ('&&', 'TLAND'), ('||', 'TLOR'), ('*=', 'TMULASSIGN'), ('/=', 'TDIVASSIGN'),
@@ -91,6 +93,8 @@ def parse_inst(name, src, expect_error, fam, checks='', record=False, errline=No
         defs['WITNESS_IN_ERROR'] = None
     if extra_defs:
         defs.update(extra_defs)
+    if maxtok == 'fit':      # token array just large enough (large arrays of structs slow symbolic execution down)
+        maxtok = (len(tokenize(src)) + 8 + 31) // 32 * 32
     if maxtok != 320:
         defs['MAXTOK'] = maxtok
     ov = OVERRIDES + (['emitfunc', 'emitdata'] if record else [])
